@@ -3,12 +3,14 @@
 import json, glob, os
 V = os.path.dirname(os.path.dirname(os.path.abspath(__file__)))
 rows = []
-for kind in ('seeded', 'seeded2'):
+for kind in ('seeded', 'seeded2', 'redteam'):
     for d in sorted(glob.glob('%s/%s/*' % (V, kind))):
         m = json.load(open(d + '/meta.json'))
         files = sorted({l[6:].strip().replace('src/', '') for l in open(d + '/patch.diff') if l.startswith('+++ b/')})
         det = sorted(m.get('detected_by', {}).keys())
         tgt = os.path.basename(d).split('-')[0]
+        if kind == 'redteam':
+            tgt = det[0] if det else ''
         first = (m.get('detected_by', {}).get(tgt) or m.get('detected_by', {}).get(det[0] if det else '', ['']) or [''])[0]
         rows.append((os.path.basename(d), ', '.join(files), ', '.join(det) or 'NONE', ('' if tgt in det else '(via %s) ' % (det[0] if det else '-')) + first[:100].replace('|', '/')))
 out = ['| seed (property-[base]-n) | files touched | checks that fire | first finding |', '|---|---|---|---|']
